@@ -611,6 +611,10 @@ class C10(Prop):
             for k in keys:
                 if k in data:
                     v = copy.deepcopy(data[k])
+                    if isinstance(v, dict):
+                        # the same name on two channels holds two different hashes: merging one into the
+                        # other (instead of shadowing it) changes the caller's object
+                        v[MARK] = channel
                     m[k] = tuple(v) if k in tuples and isinstance(v, list) else v
             m[MARK] = channel
             return m
